@@ -18,7 +18,7 @@ CHECKS = {
 
 CHECKS['C05'] = dict(level='exploration',
     technique='runtime monitoring: metamorphic fixed-point oracle F(F(x))==F(x) and --check over an enumerated file x profile universe',
-    text='Every (C/C++ corpus file, curated profile) pair of the fixed universe (quick: seeded 40 % slice; thorough: all) is formatted twice by the real binary and the two outputs compared byte for byte; --check is run on the first output; unstable pairs of the pinned tree are listed individually in known_findings.json. The weaker second-pass-accepted claim is observed on the test-suite (config, input) pairs of all languages.',
+    text='Every (C/C++ corpus file, curated profile) pair of the fixed universe (quick: seeded 40 % slice; thorough: all) is formatted twice by the real binary and the two outputs compared byte for byte; --check is run on the first output; unstable pairs of the pinned tree are listed individually in known_findings.json. The weaker second-pass-accepted claim is observed on the test-suite (config, input) pairs of all languages. Fixed families on top: generated programs with nine comment shapes x profiles (root-cause keys), hand-written mod-shape hosts x profiles, and a trailing-comment sweep (comment at columns 2..30 x continuation comment line at offsets -3..+3 x profiles) whose unstable members on the pinned tree are listed exactly.',
     note='Trusted: determinism of the binary (monitored by C10). Profiles are etc/ styles plus three pinned overrides (profiles/derive.py).',
     design='DESIGN.md §2 C05')
 CHECKS['C10'] = dict(level='exploration',
@@ -39,7 +39,7 @@ CHECKS['C11'] = dict(level='exploration',
     design='DESIGN.md §2 C11')
 CHECKS['C12'] = dict(level='exploration',
     technique='runtime monitoring: ground-truth oracle for --check/--if-changed with directory snapshots (inode, size, mtime, ctime, mode, bytes)',
-    text='For each (corpus file, config): the file, its formatted version and 10 one-byte/size/terminator/BOM perturbations are given to --check singly and in batches; exit status and PASS/FAIL lines are compared with the truth from a normal run, the directory snapshot must be unchanged; --if-changed is run in 5 output modes and must write nothing for reproduced files and exactly the normal bytes otherwise.',
+    text='For each (corpus file, config): the file, its formatted version and 10 one-byte/size/terminator/BOM perturbations are given to --check singly and in batches; exit status and PASS/FAIL lines are compared with the truth from a normal run, the directory snapshot must be unchanged; --if-changed is run in 5 output modes and must write nothing for reproduced files and exactly the normal bytes otherwise. Inputs whose byte count differs from their character count are in every run: all corpus files with non-ASCII bytes under every config and ASCII files behind a multi-byte comment; one config inserts a header/footer with characters above U+00FF.',
     note='Trusted: a normal -f run as ground truth (tied to the other modes by C10).',
     design='DESIGN.md §2 C12')
 
@@ -50,7 +50,7 @@ CHECKS['C09'] = dict(level='exploration',
     design='DESIGN.md §2 C09')
 CHECKS['C13'] = dict(level='fault_enumeration',
     technique='fault injection on the real binary: strace SIGKILL at every syscall and error injection at every file syscall (singly, pairs), RLIMIT_FSIZE short writes; file-system snapshot oracle',
-    text='Per scenario (4 in-place modes x needs/formatted/fails x prior backup state x 3 sizes) a reference strace lists every syscall after the first touch of the source; every one is visited as a crash point (SIGKILL on entry) and every file syscall as a fault point (ENOSPC/EACCES/EIO), plus sampled fault pairs and real short writes via RLIMIT_FSIZE; after each run the directory snapshot must show the complete original or the complete formatted text, an intact backup when required, and a non-zero status for any failure. Exhaustive per scenario for single points.',
+    text='Per scenario (6 in-place modes/path spellings x needs/formatted/fails/shrinks/empty/blank x prior backup state x 3 sizes) a reference strace lists every syscall after the first touch of the source; every one is visited as a crash point (SIGKILL on entry) and every file syscall as a fault point (ENOSPC/EACCES/EIO), plus sampled fault pairs and real short writes via RLIMIT_FSIZE; after each run the directory snapshot must show the complete original or the complete formatted text, an intact backup when required, and a non-zero status for any failure. Exhaustive per scenario for single points. Source states include a zero-length and a one-line-break file under a configuration that inserts a header; path spellings include \'./name\'.',
     note='Trusted: strace injection ((INJECTED) marks are counted); atomicity of rename(2) and durability are the kernel\'s.',
     design='DESIGN.md §2 C13')
 
@@ -73,7 +73,7 @@ CHECKS['C16'] = dict(level='exploration',
 
 CHECKS['C02'] = dict(level='exploration',
     technique='runtime monitoring with the chunk-dump hook: token-stream oracles (character stream + directive flags from T dumps, independent lexer, own tokenizer re-lex) over corpus x whitespace configs, fixed mutant/joint universes and a token-pair table',
-    text='Each case formats an input with a whitespace-only configuration and re-lexes the output: the non-comment character stream and per-character directive flags (hook dumps), the token boundaries by an independent lexer written from the language standards (C, C++, ObjC, Java, C# precise; D, Vala, Pawn, ECMA generic) and uncrustify\'s own tokenizer must agree between input and output. Workloads: corpus x 13 curated configs, 40k joint whitespace draws and 20k (file, test config) pairs as fixed universes, 10k byte mutants, and every ordered pair of 56 token classes under all sp_=remove/force.',
+    text='Each case formats an input with a whitespace-only configuration and re-lexes the output: the non-comment character stream and per-character directive flags (hook dumps), the token boundaries by an independent lexer written from the language standards (C, C++, ObjC, Java, C# precise; D, Vala, Pawn, ECMA generic) and uncrustify\'s own tokenizer must agree between input and output. Workloads: corpus x 13 curated configs, 40k joint whitespace draws and 20k (file, test config) pairs as fixed universes, 10k byte mutants, and every ordered pair of 56 token classes under all sp_=remove/force. Directives: \'#ifdef/#endif\' pairs injected around seeded line ranges of corpus files, and 33 one-construct units whose lines are separated by \'#pragma\' lines under every newline add/remove and pos_ option singly at every value (a token moved across a directive changes the stream).',
     note='Trusted: the T-stage dump hook is passive (C10 checks output equality with hooks on); the independent lexer is authoritative only on well-lexed input.',
     design='DESIGN.md §2 C02')
 
@@ -85,30 +85,30 @@ CHECKS['C03'] = dict(level='exploration',
 
 CHECKS['C07'] = dict(level='exploration',
     technique='runtime monitoring: region-bytes oracle (lines between sentinel-carrying marker lines, input vs output) and opacity oracle (same host, other region text, output outside the region compared) over hosts x marker styles x hostile bodies x configurations',
-    text='A disabled region (8 marker styles: block, //, doxygen, indented, trailing blanks, custom text, regex, #pragma asm) with one of 23 hostile bodies (other languages, unbalanced brackets, tabs/trailing blanks, blank-line runs, non-ASCII and invalid UTF-8, marker look-alikes, comment/string openers, directives, 5000-column line, control characters) is inserted before every line of 9 hand-written hosts (one per language) and at seeded lines of corpus files, terminated or running to end of file; corpus files are also wrapped whole. Each case is formatted under 13 curated configs (mod add/remove, blank-line, align, width, comment, indent, all sp_/nl_) or joint draws over whitespace+mod+comment options; the region lines of the output must equal the inserted ones, and replacing the region text by another body of the same shape must leave every byte outside the region unchanged.',
+    text='A disabled region (8 marker styles: block, //, doxygen, indented, trailing blanks, custom text, regex, #pragma asm) with one of 23 hostile bodies (other languages, unbalanced brackets, tabs/trailing blanks, blank-line runs, non-ASCII and invalid UTF-8, marker look-alikes, comment/string openers, directives, 5000-column line, control characters) is inserted before every line of 9 hand-written hosts (one per language) and at seeded lines of corpus files, terminated or running to end of file; corpus files are also wrapped whole. Each case is formatted under 13 curated configs (mod add/remove, blank-line, align, width, comment, indent, all sp_/nl_) or joint draws over whitespace+mod+comment options; the region lines of the output must equal the inserted ones, and replacing the region text by another body of the same shape must leave every byte outside the region unchanged. Regions running to the end of the file are tried with and without a final line terminator; two bodies hold the enable text inside literals and after code on a region line.',
     note='Trusted: region extraction by sentinel words in the marker comments; a marker comment that a comment-reflow option spreads over several lines is not judged (counted).',
     design='DESIGN.md §2 C07')
 
 CHECKS['C17'] = dict(level='exploration',
     technique='runtime monitoring: per-line predicates on the output classified by an independent lexer (trailing blanks, tab/space discipline of leading whitespace by indent_with_tabs / pp_indent_with_tabs, end-of-file policy) over hostile re-layouts of the corpus x tab/indent/align option draws',
-    text='Corpus files of all nine languages, 70 % of them re-laid-out with hostile whitespace (space/tab mixes in front, trailing blanks, whitespace-only lines, tabs between tokens; token stream checked unchanged), are formatted under the complete indent_with_tabs x indent_columns x output_tab_size grid (fixed core) and seeded draws of tab/indent/align/pp/eof options, joint whitespace draws and curated configs (fixed universe of 80k cases; quick: 15k). Every output line that starts outside a comment/literal is judged: no trailing blank where the line ends outside a comment/literal; no tab in the leading whitespace with indent_with_tabs=0; no space before a tab with 1 or 2; directive lines by pp_indent_with_tabs; the end of file by nl_end_of_file/nl_end_of_file_min.',
+    text='Corpus files of all nine languages, 70 % of them re-laid-out with hostile whitespace (space/tab mixes in front, trailing blanks, whitespace-only lines, tabs between tokens; token stream checked unchanged), are formatted under the complete indent_with_tabs x indent_columns x output_tab_size grid (fixed core) and seeded draws of tab/indent/align/pp/eof options, joint whitespace draws and curated configs (fixed universe of 80k cases; quick: 15k). Every output line that starts outside a comment/literal is judged: no trailing blank where the line ends outside a comment/literal; no tab in the leading whitespace with indent_with_tabs=0; no space before a tab with 1 or 2; directive lines by pp_indent_with_tabs; the end of file by nl_end_of_file/nl_end_of_file_min. Whitespace-only lines are judged by indent_with_tabs when indent_single_newlines=true; three hosts with directives inside nested blocks followed by blank lines run over the whole (indent_with_tabs x pp_indent_with_tabs x indent_single_newlines x indent_columns x output_tab_size x pp_indent) grid.',
     note='Trusted: the independent lexer for the line classification (inputs/outputs it does not lex cleanly are counted and not judged).',
     design='DESIGN.md §2 C17')
 CHECKS['C20'] = dict(level='exploration',
     technique='runtime monitoring: run-length oracle over line breaks of the lexer-classified output (nl_max bound, start/end-of-file counts, blank lines next to braces) over corpus files with injected blank-line runs x drawn blank-line configurations',
-    text='Corpus files of all nine languages with runs of 0..6 blank lines injected before lines that start outside comments/literals/directives and at file start/end (token stream checked unchanged) are formatted under: nl_max 0..6 x nl_start_of_file at all four values x minima (fixed core), and a fixed universe of 90k drawn configs (quick: 12k) over nl_max 1..6 with blank-line count options <= nl_max and other newline options, the start/end options x minima 0..3, and eat_blanks_*. The output must contain no run of more than nl_max line breaks between tokens outside comments/literals (when no count option asks for more), exactly/at least the prescribed line breaks before the first and after the last token, and no blank line after a line-ending "{" / before a line-starting "}" under eat_blanks_*.',
-    note='Trusted: the independent lexer for the line classification; the eat_blanks clause is judged only when no blank-line count option is set.',
+    text='Corpus files of all nine languages with runs of 0..6 blank lines injected before lines that start outside comments/literals/directives and at file start/end (token stream checked unchanged) are formatted under: nl_max 0..6 x nl_start_of_file at all four values x minima (fixed core), and a fixed universe of 90k drawn configs (quick: 12k) over nl_max 1..6 with blank-line count options <= nl_max and other newline options, the start/end options x minima 0..3, and eat_blanks_*. The output must contain no run of more than nl_max line breaks between tokens outside comments/literals (when no count option asks for more), exactly/at least the prescribed line breaks before the first and after the last token, and no blank line after a line-ending "{" / before a line-starting "}" under eat_blanks_*. Every newline add/remove option and every pos_ option singly at every value, with nl_max=2 and eat_blanks_* on, over 55 one-construct units in which the token the option moves sits next to a comment and a blank line (a second change in the same pass would hide a leftover).',
+    note='Trusted: the independent lexer for the line classification; the eat_blanks clause is judged whatever the other options say; count options that win against it on the pinned tree are listed findings.',
     design='DESIGN.md §2 C20')
 
 CHECKS['C19'] = dict(level='exploration',
     technique='runtime monitoring with the SPACE and DUMP hooks: every spacing decision record (rule names logged, raw and final value, forced flag) is joined with the blanks measured between the two tokens in the output bytes and with the configured value of the rule named',
-    text='Every one of the 258 IARF sp_ options is set singly to each of ignore/add/remove/force (exhaustive over options x values) on corpus files where its rule fires under defaults and on nine hand-written hosts; a 6-config pairwise-separating family (each option a distinct code word of minimum distance 2, so any two options differ in at least two configs) and seeded joint draws are run over seeded corpus files. For every record whose last logged rule is a user option and whose tokens are adjacent on one output line (tokens located in the output bytes by a sequential scan of the O dump): remove gives no blank unless the junction would lex differently (decided by the independent lexer, two identifier characters, digraphs) or the rule is one the statement names (return/case operand, macro body); force gives exactly min_sp (1) blanks; add at least one; ignore keeps presence as in the input (tokens neighbours in the T dump); and the raw decision equals the value configured for the very rule named (decorations such as "/FORCE" and "| ADD" are honoured as logged).',
+    text='Every one of the 258 IARF sp_ options is set singly to each of ignore/add/remove/force (exhaustive over options x values) on corpus files where its rule fires under defaults and on nine hand-written hosts; a 6-config pairwise-separating family (each option a distinct code word of minimum distance 2, so any two options differ in at least two configs) and seeded joint draws are run over seeded corpus files. For every record whose last logged rule is a user option and whose tokens are adjacent on one output line (tokens located in the output bytes by a sequential scan of the O dump): remove gives no blank unless the junction would lex differently (decided by the independent lexer, two identifier characters, digraphs) or the rule is one the statement names (return/case operand, macro body); force gives exactly min_sp (1) blanks; add at least one; ignore keeps presence as in the input (tokens neighbours in the T dump); and the raw decision equals the value configured for the very rule named (decorations such as "/FORCE" and "| ADD" are honoured as logged). A further family leaves the Qt SIGNAL/SLOT override at its default (on) over a Qt host and the corpus files with such macros: pairs inside the macros are skipped, everything after a macro must obey the configured values again.',
     note='Trusted: the SPACE hook reports what log_rule() is given and what space_text() decides (C10 checks that hooks do not change the output); trailing comments, Qt macro arguments and pairs not attributed to a user option are counted, not judged.',
     design='DESIGN.md §2 C19')
 
 CHECKS['C18'] = dict(level='exploration',
     technique='runtime monitoring: metamorphic re-indentation invariance (leading whitespace of statement-start output lines unchanged when every input line is re-indented) and a reference model (closed-form column from the generator\'s own nesting) over generated block-structured programs and corpus files',
-    text='Grammar-generated C/C++/Java programs (one statement, brace or label per line; if/else chains, braceless bodies, for/while/do-while, switch/case with fall-through, bare blocks, namespaces, classes, own-line comments; nesting up to level 9; brace placement mixed per construct; input indentation random per line) from a fixed universe of 50k programs. Closed form: every output line must start at (brace depth + braceless nesting + enclosing case labels) x indent_columns + enclosing switches x indent_switch_case (+ indent_columns inside a namespace/class with indent_namespace/indent_class), closing braces at the column of the statement that opened the block, for indent_columns 1..16 x indent_with_tabs 0..2 x output_tab_size {2,3,4,8}, with random sp_ options that must be irrelevant. Invariance: 3 re-indentations of every line of a generated program, and 2 re-indentations of the statement-start lines of corpus files (all languages), must leave the leading whitespace of every judged output line unchanged, under model options and joint draws of options not documented to keep original columns.',
+    text='Grammar-generated C/C++/Java programs (one statement, brace or label per line; if/else chains, braceless bodies, for/while/do-while, switch/case with fall-through, bare blocks, namespaces, classes, own-line comments; nesting up to level 9; brace placement mixed per construct; input indentation random per line) from a fixed universe of 50k programs. Closed form: every output line must start at (brace depth + braceless nesting + enclosing case labels) x indent_columns + enclosing switches x indent_switch_case (+ indent_columns inside a namespace/class with indent_namespace/indent_class), closing braces at the column of the statement that opened the block, for indent_columns 1..16 x indent_with_tabs 0..2 x output_tab_size {2,3,4,8}, with random sp_ options that must be irrelevant. Invariance: 3 re-indentations of every line of a generated program, and 2 re-indentations of the statement-start lines of corpus files (all languages), must leave the leading whitespace of every judged output line unchanged, under model options and joint draws of options not documented to keep original columns. Comment invariance: comments injected between lines and at line ends of generated programs and of nine hand-written hosts (braced cases, lambdas/blocks as arguments, one-liners) must not change the leading whitespace of any code line. Consistency: siblings, chain arms and brace pairs under 17 brace-style options.',
     note='Trusted: the generator\'s own nesting bookkeeping as the expected depth (the O dump is not used); the closed form was calibrated on the pinned tree (0 disagreements in 565k lines) and is frozen in vf/props/c18.py expected_width().',
     design='DESIGN.md §2 C18')
 
@@ -120,7 +120,7 @@ CHECKS['C04'] = dict(level='exploration',
 
 CHECKS['C01'] = dict(level='translation_validation',
     technique='runtime monitoring with a reference compiler as oracle: every generated program and its formatted version are compiled with the same compiler and flags (gcc/g++/clang -O1 -S on stdin, javac -g:none) and the object code compared (per-instance translation validation)',
-    text='Grammar-generated compilable programs (C, C++17, Java, Objective-C) made of a hand-written preamble (includes to sort over generated headers, macros incl. multi-line, #if 0 branches, enums with/without trailing comma, every int-keyword spelling, extra semicolons, empty returns, all infinite-loop forms, bit-fields, designated initialisers, templates incl. >>, lambdas, range-for, ctor initialisers, try/catch/finally, synchronized) and generated functions (every statement kind, braceless bodies, nested blocks, pointer/unary chains next to binary operators such as a / *q1, a - -b, a & *&b, own-line comments; hostile layout) are formatted under every non-excluded option singly at every swept non-default value (about 2100 option=value configs in a covering design: each meets 2 (quick) / 8 (thorough) programs) and under joint draws over all non-excluded options. uncrustify must exit 0, the output must compile, and the assembly (minus .file/.ident) or class files must be identical to those of the input. Programs the compiler rejects are discarded and counted; distinct outputs are compiled once.',
+    text='Grammar-generated compilable programs (C, C++17, Java, Objective-C) made of a hand-written preamble (includes to sort over generated headers, macros incl. multi-line, #if 0 branches, enums with/without trailing comma, every int-keyword spelling, extra semicolons, empty returns, all infinite-loop forms, bit-fields, designated initialisers, templates incl. >>, lambdas, range-for, ctor initialisers, try/catch/finally, synchronized) and generated functions (every statement kind, braceless bodies, nested blocks, pointer/unary chains next to binary operators such as a / *q1, a - -b, a & *&b, own-line comments; hostile layout) are formatted under every non-excluded option singly at every swept non-default value (about 2100 option=value configs in a covering design: each meets 2 (quick) / 8 (thorough) programs) and under joint draws over all non-excluded options. uncrustify must exit 0, the output must compile, and the assembly (minus .file/.ident) or class files must be identical to those of the input. Programs the compiler rejects are discarded and counted; distinct outputs are compiled once. Nine hand-written hosts carry every shape the code-modifying passes look for (braced cases with declarations, removable braces, dangling-else shapes, one-liners, int spellings, enum commas) in every nesting context (plain body, statement expression / lambda / block as call argument, preprocessor branch, member function in a namespace, Java lambda and anonymous class) and are run under every code-modifying and comment-rewriting option at every value (thorough: every swept option) and joint draws.',
     note='Trusted: gcc/g++/clang/javac as the semantics oracle at one optimisation level and target; the excluded configurations are those the statement excludes plus the two error-policy options.',
     design='DESIGN.md §2 C01')
 
